@@ -166,7 +166,7 @@ Section Sound.
   Lemma run_sound fuel : forall s S0 st0 st os,
     covers S0 st0 st -> unk (run s S0) = false -> sound_for (run s S0) st0 (exec fuel s st os).
   Proof.
-    induction s as [| |e|a IHa b IHb|c t IHt e IHe|b IHb|b IHb]; intros S0 st0 st os C U; cbn in *.
+    induction s as [| |e|a IHa b IHb|c t IHt e IHe|b IHb|b IHb|b IHb h IHh]; intros S0 st0 st os C U; cbn in *.
     - assumption.
     - assumption.
     - now apply run_eff_sound.
@@ -206,6 +206,17 @@ Section Sound.
       + now apply covers_aunion_l.
       + now apply covers_aunion_r.
       + assumption.
+      + exact I.
+    - apply orb_false_iff in U. destruct U as [Ub Uh].
+      destruct os as [|o r]; [exact I|].
+      specialize (IHb S0 st0 st r C Ub).
+      destruct (exec fuel b st r) as [st' os'| st' os' | st' |]; cbn in *.
+      + now apply covers_aunion_l.
+      + now apply covers_aunion_l.
+      + destruct (o_bool V o); cbn.
+        * specialize (IHh (throws (run b S0)) st0 st' r IHb Uh).
+          destruct (exec fuel h st' r); cbn in *; try exact I; now apply covers_aunion_r.
+        * now apply covers_aunion_l.
       + exact I.
   Qed.
 
